@@ -154,6 +154,9 @@ func genC11Doc(t *rapid.T) c11Doc {
 	}
 }
 
+// softHyphenSnippet: precomposed text with soft hyphens (German hyphenation hints) and nothing that NFC would change.
+const softHyphenSnippet = "<p>Die Donau\u00addampf\u00adschiff\u00adfahrts\u00adgesell\u00adschaft f\u00e4hrt \u00fcber die Stra\u00dfe co\u00adoperate soft\u00adhyphen text text text text text text text text text text text text text.</p>"
+
 // unicodeSnippet holds text that the byte-stream entry points normalise (decomposed accents, Hangul
 // jamo, soft hyphens, NFC singletons): they must treat it exactly as Apply on the reference parse.
 const unicodeSnippet = "<p>re\u0301sume\u0301 co\u00adoperate nai\u0308ve \u1112\u1161\u11ab \u212b \u2126 fi\u00adnal e\u0301te\u0301 " +
@@ -170,8 +173,15 @@ func genC11(t *rapid.T) *Case {
 			continue
 		}
 		d := genC11Doc(t)
-		if rapid.IntRange(0, 2).Draw(t, "unicode") == 0 {
+		switch rapid.IntRange(0, 5).Draw(t, "unicode") {
+		case 0, 1:
 			d.HTML = strings.Replace(d.HTML, "</body>", unicodeSnippet+"</body>", 1)
+		case 2:
+			// hyphenation hints only: the page is in NFC already, yet not what the entry points parse
+			d.HTML = strings.Replace(d.HTML, "</body>", softHyphenSnippet+"</body>", 1)
+			if rapid.Bool().Draw(t, "shytitle") {
+				d.HTML = strings.Replace(d.HTML, "</title>", " Donau\u00addampf\u00adschiff</title>", 1)
+			}
 		}
 		if rapid.IntRange(0, 5).Draw(t, "headnoscript") == 0 {
 			// a <noscript> with flow content in the head (the "please enable JavaScript" notice) and one
